@@ -954,6 +954,8 @@ MUTANTS = [
     Mutant("revert-F35b-scan-continues-after-version-line-structural", TR, '                    # Everything after the version line is binary packet\n                    # data, not more identification lines.\n                    break\n            else:\n                # Only lines preceding the version string were received so\n                # far (RFC 4253 section 4.2); wait for the version string.\n                return\n',
            '            if not self.gotVersion:\n                # Only lines preceding the version string were received so\n                # far (RFC 4253 section 4.2); wait for the version string.\n                return\n', expect_rule="s/version/first-version-line-only"),
     Mutant("alignment-test-inverted", TR, "        if (packetLen + 4) % bs != 0:\n", "        if not (packetLen + 4) % bs:\n", expect_rule="s/length/block-aligned"),
+    Mutant("stashed-block-read-with-a-sentinel-but-decrypted-again", TR, '        if not hasattr(self, "first"):\n            first = self.currentEncryptions.decrypt(self.buf[:bs])\n        else:\n            first = self.first\n            del self.first\n',
+           '        nothingStashed = object()\n        first = getattr(self, "first", nothingStashed)\n        if first is not nothingStashed:\n            del self.first\n        first = self.currentEncryptions.decrypt(self.buf[:bs])\n', expect_rule="s/segmentation/first-block-decrypted-once"),
 ]
 SILENT = [
     Silent("verify-result-in-named-boolean", TR, "            if not self.currentEncryptions.verify(\n                self.incomingPacketSequence, packet, macData\n            ):\n                self.sendDisconnect(DISCONNECT_MAC_ERROR, b\"bad MAC\")\n                return\n",
@@ -981,4 +983,6 @@ SILENT = [
     Silent("repair-spelled-with-a-flag-test", TR, '                    break\n            else:\n                # Only lines preceding the version string were received so\n                # far (RFC 4253 section 4.2); wait for the version string.\n                return\n        packet = self.getPacket()',
            '                    break\n            if not self.gotVersion:\n                return\n        packet = self.getPacket()'),
     Silent("alignment-remainder-as-truth-value", TR, "        if (packetLen + 4) % bs != 0:\n", "        if (packetLen + 4) % bs:\n"),
+    Silent("stashed-block-read-with-a-sentinel-default", TR, '        if not hasattr(self, "first"):\n            first = self.currentEncryptions.decrypt(self.buf[:bs])\n        else:\n            first = self.first\n            del self.first\n',
+           '        nothingStashed = object()\n        first = getattr(self, "first", nothingStashed)\n        if first is nothingStashed:\n            first = self.currentEncryptions.decrypt(self.buf[:bs])\n        else:\n            del self.first\n'),
 ]
